@@ -3,11 +3,18 @@ import itertools, random
 from .. import core, gen, ref, hist, world as W
 from .c01 import fix_disagreements
 
-MODULES = ['DsdVerif.Props.C02']
-GEN_FILES = []
+MODULES = ['DsdVerif.Props.C02', 'DsdVerif.Props.PyIdent']
+GEN_FILES = ['PyIdentifiers', 'PyFuncs']
 THEOREM_NAMES = ['ckeyLt_irrefl', 'ckeyLt_trans', 'ckeyLt_total', 'ckeyLt_names_first', 'canon_mem_min', 'identifiers_total',
                  'orbit_rotate', 'canon_rot_invariant', 'canon_eq_iff', 'identifiers_existing', 'keys_are_orbit_preserved', 'turns_correct']
-THEOREMS = ['Dsd.C02.' + t for t in THEOREM_NAMES] + ['Dsd.C02.complexRequestFull_eq', 'Dsd.C02.strandRequestFull_eq', 'Dsd.CplxFullL.identifiers_eq']
+THEOREMS = ['Dsd.C02.' + t for t in THEOREM_NAMES] + ['Dsd.C02.complexRequestFull_eq', 'Dsd.C02.strandRequestFull_eq', 'Dsd.CplxFullL.identifiers_eq'] + \
+    ['Dsd.PyIdent.' + t for t in (
+        # ComplexS.identifiers / StrandS.identifiers as written in the source (translator/pyident.py -> Gen/PyIdentifiers.lean, regenerated on
+        # every run) equal the statement-level model for every registry, request and ID; the C02 theorems transferred to the code as written
+        'py_ComplexS_identifiers_eq', 'py_ComplexS_identifiers_eq_regKeys', 'py_ComplexS_identifiers_eq_all', 'py_ComplexS_identifiers_net',
+        'py_ComplexS_identifiers_none', 'py_ComplexS_identifiers_raises', 'py_identifiers_total', 'py_canon_mem_min', 'py_canon_rot_invariant',
+        'py_turns_correct', 'py_canon_eq_iff', 'py_canon_registered_or_fresh', 'py_StrandS_identifiers_eq', 'strandRequestFull_eq_py',
+        'py_strand_request', 'py_strand_canon_inj', 'ckeyLt_eq', 'sortedBy_eq')]
 ASSUMPTIONS = [
     'ComplexS.identifiers is hand-modelled (Model/Objects.lean: complexIdentifiers = the loop with early exit on a registered rotation, '
     'minimum by (names, structure) under code-point lexicographic order); Python str/tuple ordering is modelled',
@@ -259,6 +266,9 @@ def run(res, proof):
             fix_disagreements(res, lines, impl, model)
     except core.DriverBroken as e:
         proof.problem('driver', str(e))
+    # ComplexS.identifiers / StrandS.identifiers as translated from the working tree (Gen/PyIdentifiers.lean) against the real classmethods
+    from .pyident_stream import source_derived_pyident
+    source_derived_pyident(res, proof)
     res.sample(lines[:14])
 
 
